@@ -238,49 +238,51 @@ func c19AliasScheme(e *Env, gm *wiring.GoModel) {
 	}
 	// the numerals: the n aliases of the file carry exactly the first n numerals of today's numbering
 	base, upper := int64(0), false
-	allInstrs(fn, func(_ *ssa.Function, ins ssa.Instruction) {
-		c, ok := ins.(*ssa.Call)
-		if !ok {
-			return
-		}
-		switch callName(&c.Call) {
-		case "strconv.FormatInt", "strconv.FormatUint":
-			if b, ok := constInt(c.Call.Args[1]); ok {
-				base = b
+	for _, uf := range unitFns(fn, 1) {
+		allInstrs(uf, func(_ *ssa.Function, ins ssa.Instruction) {
+			c, ok := ins.(*ssa.Call)
+			if !ok {
+				return
 			}
-		case "strconv.Itoa":
-			base = 10
-		case "fmt.Sprintf":
-			if f, ok := constString(c.Call.Args[0]); ok {
-				vals := varargs(c.Call.Args[1])
-				ai := 0
-				for i := 0; i+1 < len(f); i++ {
-					if f[i] != '%' {
-						continue
-					}
-					i++
-					if f[i] == '%' {
-						continue
-					}
-					if ai < len(vals) && isIntegerValue(vals[ai]) {
-						switch f[i] {
-						case 'd', 'v':
-							base = 10
-						case 'x':
-							base = 16
-						case 'X':
-							base, upper = 16, true
-						case 'o':
-							base = 8
-						case 'b':
-							base = 2
+			switch callName(&c.Call) {
+			case "strconv.FormatInt", "strconv.FormatUint":
+				if b, ok := constInt(c.Call.Args[1]); ok {
+					base = b
+				}
+			case "strconv.Itoa":
+				base = 10
+			case "fmt.Sprintf":
+				if f, ok := constString(c.Call.Args[0]); ok {
+					vals := varargs(c.Call.Args[1])
+					ai := 0
+					for i := 0; i+1 < len(f); i++ {
+						if f[i] != '%' {
+							continue
 						}
+						i++
+						if f[i] == '%' {
+							continue
+						}
+						if ai < len(vals) && isIntegerValue(vals[ai]) {
+							switch f[i] {
+							case 'd', 'v':
+								base = 10
+							case 'x':
+								base = 16
+							case 'X':
+								base, upper = 16, true
+							case 'o':
+								base = 8
+							case 'b':
+								base = 2
+							}
+						}
+						ai++
 					}
-					ai++
 				}
 			}
-		}
-	})
+		})
+	}
 	if base >= 2 && base <= 36 {
 		var want, got []string
 		for k := 0; k < n; k++ {
